@@ -5,6 +5,7 @@ import (
 	"fmt"
 	"os"
 	"sort"
+	"strings"
 	"testing"
 
 	"github.com/B1NARY-GR0UP/originium"
@@ -126,6 +127,9 @@ func GenLM(seed uint64) *LMCase {
 				e.Val = ""
 			} else if r.Intn(10) == 0 {
 				e.Val = "" // empty but present
+			} else if r.Intn(4) == 0 {
+				// now and then an entry larger than a small data block
+				e.Val += "-" + strings.Repeat("x", 10+r.Intn(120))
 			}
 			es = append(es, e)
 		}
